@@ -13,7 +13,7 @@ T, BR = CaptionNode.create_text, CaptionNode.create_break
 ADVERSARIAL = ["-->", "a --> b", "&amp;lt;", "&lt;", "<i>", "</i>", "<b>bold</b>", "]]>", "<![CDATA[x]]>", "&#65;", "&#x41;",
                "&nbsp;", "\"quoted\"", "it's", "a & b", "x < y > z", "<v Bob>", "</span>", "<br/>", "<p>", "&", "<", ">",
                "1", "00:00:01,000 --> 00:00:02,000", "{1}{2}", "WEBVTT", "<!-- c -->", "a b", "Ünï çødé ♪", "tab\there",
-               "  padded  ", "SCORE   HOME  2", "Wait.  What?", "semi;colon", "%s %d {0}", "\\n", "<sync start=\"1\">", "&unknown;", "&amp", "<<>>", "--", "->"]
+               "🎉 party 🎉", "𝄞 clef", "𠮷野家", "  padded  ", "SCORE   HOME  2", "Wait.  What?", "semi;colon", "%s %d {0}", "\\n", "<sync start=\"1\">", "&unknown;", "&amp", "<<>>", "--", "->"]
 META = "&<>-;#\"'a 1/"
 
 
@@ -54,6 +54,8 @@ def node_lists(lines, variant):
                 nodes += [BR(), BR()]
             if variant == "empty_text" and i == 1:
                 nodes += [T(""), BR()]
+            if variant == "blank_text" and i == 1:
+                nodes += [T("  "), BR()]
         nodes.append(T(ln))
     if variant == "leading_break":
         nodes = [BR()] + nodes
@@ -84,7 +86,7 @@ def parse(fmt, doc):
 def bounded(ctx, b):
     rng = random.Random(ctx.seed + 3)
     tx = texts(ctx)
-    variants = ["plain", "plain", "double_break", "triple_break", "empty_text", "leading_break", "trailing_break"]
+    variants = ["plain", "plain", "double_break", "triple_break", "empty_text", "blank_text", "leading_break", "trailing_break"]
     cases = []
     for t in tx:
         cases.append(([t], "plain"))
